@@ -619,6 +619,8 @@ Proof.
     apply CI_apply_err_st; auto. cbn [fst]. apply CI_ensure_chan; auto.
   - (* LHeartbeat *)
     destruct (get_conn s c); [|exact H]. destruct (h =? 0); [exact H|apply CI_conn_close; auto].
+  - (* LRestart *)
+    unfold restart. cbn [fst]. intros c h ch Hg. unfold get_chan, get_conn in Hg. cbn in Hg. discriminate.
 Qed.
 
 Lemma CI_init cfg : CI (init cfg).
